@@ -4,6 +4,7 @@ import (
 	"go/ast"
 	"go/token"
 	"go/types"
+	"golang.org/x/tools/go/packages"
 	"strings"
 )
 
@@ -664,6 +665,8 @@ func c14CacheR(c *Ctx, R string) {
 	}
 	if R == "C14-R3" {
 		c14TemplateFields(c)
+		c14ConcurrencyChain(c)
+		c14DurationUnits(c)
 	}
 	if R == "C14-R3" {
 		cacheExpiryWriters(c, R)
@@ -868,6 +871,46 @@ func c14TemplateFields(c *Ctx) {
 		}
 	}
 	c.Check(n >= 8, "C14-R2", "Render:template fields copied", fi.Decl.Pos(), itoa(n), "fewer than 8 same-named fields found")
+	// and every setting the template shares with a server definition is handed over at all:
+	// set in the literal, or stored into a PrometheusConfig afterwards
+	if ct := c.P.LookupType("internal/config", "PrometheusConfig"); ct != nil {
+		set := map[string]bool{}
+		for _, cl := range compositeLits(info, fi.Decl.Body, "internal/config.PrometheusConfig") {
+			for _, el := range cl.Elts {
+				if kv, ok := el.(*ast.KeyValueExpr); ok {
+					if id, ok := kv.Key.(*ast.Ident); ok {
+						set[id.Name] = true
+					}
+				} else {
+					// positional literal sets every field
+					for _, f := range structFields(ct) {
+						set[f] = true
+					}
+				}
+			}
+		}
+		ast.Inspect(fi.Decl.Body, func(m ast.Node) bool {
+			if as, ok := m.(*ast.AssignStmt); ok {
+				for _, l := range as.Lhs {
+					if sel, ok := l.(*ast.SelectorExpr); ok {
+						for _, f := range structFields(ct) {
+							if fieldSel(info, sel, "internal/config.PrometheusConfig", f) {
+								set[f] = true
+							}
+						}
+					}
+				}
+			}
+			return true
+		})
+		for _, f := range structFields(ct) {
+			if !tfields[f] {
+				continue
+			}
+			c.Check(set[f], "C14-R2", "Render:"+f+" of the template is handed to the server", fi.Decl.Pos(), "set",
+				"PrometheusTemplate.Render builds the server definition without its "+f+": a discovered server gets the default instead of what the template configures (for concurrency: 16 workers whatever the template says, so more requests are in flight than configured)")
+		}
+	}
 }
 
 // c14MentionsField: e reads recv.<field>, or a local whose definitions do.
@@ -955,4 +998,205 @@ func c14SingleUnlock(c *Ctx) {
 			"the key is unlocked explicitly AND by a deferred call ("+itoa(deferred)+" deferred, "+itoa(explicit)+" explicit): the second release removes the key a following identical caller has just taken, so a third identical request is let in and the same question is in flight twice")
 	}
 	c.Check(n >= 5, "C14-R1", "functions releasing the key lock enumerated", token.NoPos, itoa(n), "fewer than five")
+}
+
+// c14ConcurrencyChain: the number that bounds the worker pool is the configured
+// one all the way: newFailoverGroup hands PrometheusConfig.Concurrency to the
+// `concurrency` parameter of every NewPrometheus call (the first upstream and
+// every failover one), and NewPrometheus stores that parameter, nothing else,
+// in Prometheus.concurrency.
+func c14ConcurrencyChain(c *Ctx) {
+	np := c.MustFunc("C14-R2", "internal/promapi.NewPrometheus")
+	nfg := c.MustFunc("C14-R2", "internal/config.newFailoverGroup")
+	if np == nil || nfg == nil {
+		return
+	}
+	sig := np.Obj.Type().(*types.Signature)
+	ci := paramIndex(sig, "concurrency")
+	if ci < 0 {
+		c.Undecided("C14-R2", "NewPrometheus:concurrency parameter", np.Decl.Pos(), "no parameter named concurrency")
+		return
+	}
+	cpar := sig.Params().At(ci)
+	info := np.Pkg.TypesInfo
+	n := 0
+	check := func(val ast.Expr, pos token.Pos) {
+		n++
+		mentions, other := false, ""
+		ast.Inspect(val, func(m ast.Node) bool {
+			if id, ok := m.(*ast.Ident); ok {
+				if o := info.Uses[id]; o != nil {
+					if o == types.Object(cpar) {
+						mentions = true
+					} else if v, ok := o.(*types.Var); ok && !v.IsField() {
+						other = id.Name
+					}
+				}
+			}
+			return true
+		})
+		c.Check(mentions && other == "", "C14-R2", "NewPrometheus:concurrency stored as given", pos, "the parameter",
+			"Prometheus.concurrency is filled from `"+exprStr(val)+"`, not from the concurrency parameter alone: the pool has another size than the one configured")
+	}
+	for _, cl := range compositeLits(info, np.Decl.Body, "internal/promapi.Prometheus") {
+		for _, el := range cl.Elts {
+			if kv, ok := el.(*ast.KeyValueExpr); ok {
+				if id, ok := kv.Key.(*ast.Ident); ok && id.Name == "concurrency" {
+					check(kv.Value, kv.Pos())
+				}
+			}
+		}
+	}
+	ast.Inspect(np.Decl.Body, func(m ast.Node) bool {
+		if as, ok := m.(*ast.AssignStmt); ok && len(as.Lhs) == len(as.Rhs) {
+			for i, l := range as.Lhs {
+				if fieldSel(info, l, "internal/promapi.Prometheus", "concurrency") {
+					check(as.Rhs[i], as.Pos())
+				}
+			}
+		}
+		return true
+	})
+	c.Check(n >= 1, "C14-R2", "NewPrometheus:concurrency is stored", np.Decl.Pos(), itoa(n), "NewPrometheus never stores the concurrency it is given")
+	// the callers in internal/config
+	cinfo := nfg.Pkg.TypesInfo
+	k := 0
+	ast.Inspect(nfg.Decl.Body, func(m ast.Node) bool {
+		call, ok := m.(*ast.CallExpr)
+		if !ok || !isCallTo(cinfo, call, "internal/promapi.NewPrometheus") || len(call.Args) <= ci {
+			return true
+		}
+		k++
+		c.Check(fieldSel(cinfo, call.Args[ci], "internal/config.PrometheusConfig", "Concurrency"), "C14-R2", "newFailoverGroup:upstream gets the configured concurrency#"+itoa(k), call.Pos(), "prom.Concurrency",
+			"an upstream is created with concurrency `"+exprStr(call.Args[ci])+"` instead of the configured one: that upstream runs another number of requests in parallel")
+		return true
+	})
+	c.Check(k >= 1, "C14-R2", "newFailoverGroup:NewPrometheus calls", nfg.Decl.Pos(), itoa(k), "no upstream is created here")
+}
+
+// c14DurationUnits: every constant of type time.Duration written in
+// internal/promapi (cache lifetimes, the idle limit of the cache, the sweep
+// interval, slice sizes) is spelled with a unit of package time. A bare number
+// converts silently — `newQueryCache(3600, …)` is 3.6 microseconds — and the
+// cache then forgets every answer at the next sweep, so identical questions
+// reach the server again within their lifetime.
+func c14DurationUnits(c *Ctx) {
+	pkg := c.P.Pkg("internal/promapi")
+	if pkg == nil {
+		c.Undecided("C14-R3", "anchor:internal/promapi", token.NoPos, "package not loaded")
+		return
+	}
+	info := pkg.TypesInfo
+	isDur := func(t types.Type) bool {
+		n, ok := t.(*types.Named)
+		return ok && n.Obj().Pkg() != nil && n.Obj().Pkg().Path() == "time" && n.Obj().Name() == "Duration"
+	}
+	var hasUnit func(e ast.Expr, depth int) bool
+	hasUnit = func(e ast.Expr, depth int) bool {
+		if depth > 4 {
+			return false
+		}
+		found := false
+		ast.Inspect(e, func(m ast.Node) bool {
+			if found {
+				return false
+			}
+			var id *ast.Ident
+			switch x := m.(type) {
+			case *ast.SelectorExpr:
+				id = x.Sel
+			case *ast.Ident:
+				id = x
+			}
+			if id == nil {
+				return true
+			}
+			k, ok := info.Uses[id].(*types.Const)
+			if !ok || k.Pkg() == nil {
+				return true
+			}
+			if k.Pkg().Path() == "time" && isDur(k.Type()) {
+				found = true
+				return false
+			}
+			// a constant of the module: look at how it is declared
+			for _, p2 := range []*packages.Package{pkg} {
+				if p2.Types != k.Pkg() {
+					continue
+				}
+				for _, f := range p2.Syntax {
+					ast.Inspect(f, func(d ast.Node) bool {
+						vs, ok := d.(*ast.ValueSpec)
+						if !ok {
+							return true
+						}
+						for i, nm := range vs.Names {
+							if p2.TypesInfo.Defs[nm] == types.Object(k) && i < len(vs.Values) && p2.TypesInfo == info {
+								if hasUnit(vs.Values[i], depth+1) {
+									found = true
+								}
+							}
+						}
+						return true
+					})
+				}
+			}
+			return true
+		})
+		return found
+	}
+	n := 0
+	for _, f := range pkg.Syntax {
+		if strings.HasSuffix(c.P.Fset.Position(f.Pos()).Filename, "_test.go") {
+			continue
+		}
+		var stack []ast.Node
+		ast.Inspect(f, func(m ast.Node) bool {
+			if m == nil {
+				stack = stack[:len(stack)-1]
+				return true
+			}
+			stack = append(stack, m)
+			e, ok := m.(ast.Expr)
+			if !ok {
+				return true
+			}
+			tv, ok := info.Types[e]
+			if !ok || tv.Value == nil || tv.Type == nil || !isDur(tv.Type) {
+				return true
+			}
+			// outermost constant duration expression only
+			if len(stack) >= 2 {
+				if pe, ok := stack[len(stack)-2].(ast.Expr); ok {
+					if ptv, ok := info.Types[pe]; ok && ptv.Value != nil && ptv.Type != nil && isDur(ptv.Type) {
+						return true
+					}
+				}
+			}
+			if tv.Value.String() == "0" {
+				return false
+			}
+			// a scalar factor of a duration that is not constant (`step * -1`) is a number, not a duration
+			if len(stack) >= 2 {
+				if be, ok := stack[len(stack)-2].(*ast.BinaryExpr); ok && (be.Op == token.MUL || be.Op == token.QUO) {
+					other := be.X
+					if other == e {
+						other = be.Y
+					}
+					if otv, ok := info.Types[other]; ok && otv.Value == nil && otv.Type != nil && isDur(otv.Type) {
+						return false
+					}
+				}
+			}
+			n++
+			where := "package level"
+			if fi := c.P.enclosingFunc(e.Pos()); fi != nil {
+				where = strings.TrimPrefix(fi.Name, "internal/promapi.")
+			}
+			c.Check(hasUnit(e, 0), "C14-R3", where+":duration `"+exprStr(e)+"` is spelled with a unit", e.Pos(), "unit of package time",
+				"a time.Duration is written as the bare number `"+exprStr(e)+"` (= "+tv.Value.String()+" nanoseconds): a cache lifetime, idle limit or interval of that size makes the cache forget answers at once, so identical questions reach the server again")
+			return false
+		})
+	}
+	c.Check(n >= 5, "C14-R3", "duration constants enumerated", token.NoPos, itoa(n), "fewer than 5 duration constants found in internal/promapi")
 }
